@@ -18,7 +18,7 @@ Property theorems (proofs and intermediate lemmas: `CalicoVerif.Proofs.C09`):
 
 Explicit limits of the end-to-end statement (hypotheses): admin-up, a failsafe chain (if any) that
 lets the packet through, a packet that is not ESTABLISHED/RELATED/INVALID and not hit by the encap drop
-rules, entry mark with the drop bit clear, distinct chain lookups as given, and NO `pass` RULE IN A
+rules, entry mark with the drop bit clear, distinct chain names for group chains (`hn1`, `hn2`), and NO `pass` RULE IN A
 PROFILE: the profile chains are entered with the pass bit possibly still set by the last tier and
 the pass bit is never cleared between profiles, so a profile containing a pass rule is not rendered
 exactly (see the report; C12 owns the profile-pass question).
@@ -45,10 +45,17 @@ matching rule):
 * forward chains: no tiers ⇒ allowed; otherwise the tier verdict, undecided ⇒ returns to the caller
   with the accept bit clear;
 * untracked / pre-DNAT chains: the tier verdict without end-of-tier drop; undecided ⇒ returns with
-  the accept bit clear. -/
+  the accept bit clear.
+
+Chain names are inputs of the model (the real ones are hashes with distinct prefixes `cali-pi-` /
+`cali-gi-` / `cali-pri-` …), so the statement needs name distinctness: `hn1` — a group chain name
+identifies its group, `hn2` — a group chain name is neither the name of an inlined policy chain nor
+of a profile chain.  (Policy and profile chain names may coincide: `polRules` then gives them the
+same rules.)  There is no free "outcome function" any more: it is constructed in the proof
+(`outOf`).  All hypotheses are satisfied TOGETHER by `joint_instance` below. -/
 theorem endpoint_chain_verdict_partial (cfg : Cfg) (mo : MarksOK cfg) (vb : VBits cfg) (vd : VD cfg) (e : EpCfg)
     (env : Env) (pkt : Packet) (chains : List Chain) (name : String) (tiers : List Tier) (profiles : List String)
-    (polRules : String → List Policy.Rule) (out : String → PolOutcome) (F : Nat) (m : Mark)
+    (polRules : String → List Policy.Rule) (F : Nat) (m : Mark)
     (hup : e.adminUp = true)
     (hfs : e.failsafe ≠ "" → ∀ m', evalChain env chains pkt (F + 3) e.failsafe m' = .returned m')
     (hct : pkt.ctState ≠ "RELATED" ∧ pkt.ctState ≠ "ESTABLISHED" ∧ pkt.ctState ≠ "INVALID")
@@ -60,11 +67,11 @@ theorem endpoint_chain_verdict_partial (cfg : Cfg) (mo : MarksOK cfg) (vb : VBit
     (hpol : ∀ t ∈ tiers, ∀ g ∈ t.groups, ∀ p ∈ g.pols, p.staged = false →
       PolicyChainOK cfg env pkt chains (polRules p.chain) p.chain)
     (hprof : ∀ p ∈ profiles, ProfileChainOK cfg env pkt chains (polRules p) p)
-    (o1 : ∀ t ∈ tiers, ∀ g ∈ t.groups, g.inlined = true → ∀ p ∈ g.nonStaged,
-      out p.chain = policyOutcome env pkt.v6 pkt (polRules p.chain))
-    (o2 : ∀ t ∈ tiers, ∀ g ∈ t.groups, g.inlined = false →
-      out g.chain = firstDecision (g.nonStaged.map fun p => policyOutcome env pkt.v6 pkt (polRules p.chain)))
-    (o3 : ∀ p ∈ profiles, out p = policyOutcome env pkt.v6 pkt (polRules p)) :
+    (hn1 : ∀ t ∈ tiers, ∀ g ∈ t.groups, g.inlined = false → ∀ t' ∈ tiers, ∀ g' ∈ t'.groups, g'.inlined = false →
+      g'.chain = g.chain → g' = g)
+    (hn2 : ∀ t ∈ tiers, ∀ g ∈ t.groups, g.inlined = false →
+      (∀ t' ∈ tiers, ∀ g' ∈ t'.groups, g'.inlined = true → ∀ p ∈ g'.nonStaged, p.chain ≠ g.chain) ∧
+      (∀ p ∈ profiles, p ≠ g.chain)) :
     let r := evalChain env chains pkt (F + 4) name m
     match e.chainType with
     | .normal =>
@@ -74,8 +81,8 @@ theorem endpoint_chain_verdict_partial (cfg : Cfg) (mo : MarksOK cfg) (vb : VBit
       if tiers.isEmpty then ∃ m', r = .returned m' ∧ m' &&& cfg.markAccept = cfg.markAccept
       else TShape cfg (tiersVerdict (policyTiers env pkt polRules tiers true)) (fun m' => .returned m') r
     | _ => TShape cfg (tiersVerdict (policyTiers env pkt polRules tiers false)) (fun m' => .returned m') r :=
-  endpoint_chain_verdict_any cfg mo vb vd e env pkt chains name tiers profiles polRules out F m hup hfs hct henc hmD
-    hep hgrp hpol hprof o1 o2 o3
+  endpoint_chain_verdict_names cfg mo vb vd e env pkt chains name tiers profiles polRules F m hup hfs hct henc hmD
+    hep hgrp hpol hprof hn1 hn2
 
 /-- an admin-down endpoint drops (rejects) everything -/
 theorem endpoint_admin_down_drops (cfg : Cfg) (e : EpCfg) (env : Env) (call : String → Mark → Result) (pkt : Packet)
@@ -109,7 +116,121 @@ theorem profile_pass_stale_false :
   · decide
   · decide +kernel
 
-/-! non-vacuity of the hypotheses -/
+/-! ### joint non-vacuity: one concrete layout satisfying ALL hypotheses of
+`endpoint_chain_verdict_partial` at once
+
+One tier with an inlined group `g1` (enforced `polA`, staged `polS`) and a group with its own chain
+`g2` (enforced `polB`, staged `polS`, enforced `polC`), one profile `prof` without pass rules
+(= `wChains` with the profile's pass rule removed, plus a non-inlined group); default marks;
+a UDP packet. -/
+def jEnv : Env :=
+  { protoNum := fun s => if s == "udp" then some 17 else if s == "tcp" then some 6 else none
+    netContains := fun c _ => c == "0.0.0.0/0" || c == "::/0" }
+def jA : List Policy.Rule := [{ action := "pass", protocol := some (.name "tcp") }]
+def jB : List Policy.Rule := [{ action := "deny", protocol := some (.name "tcp") }]
+def jC : List Policy.Rule := [{ action := "pass", protocol := some (.name "udp") }]
+def jProf : List Policy.Rule := [{ action := "allow", protocol := some (.name "udp") }]
+def jPolRules (c : String) : List Policy.Rule :=
+  if c == "polA" then jA else if c == "polB" then jB else if c == "polC" then jC else if c == "prof" then jProf else []
+def jG1 : Group := { chain := "g1", pols := [{ chain := "polA", staged := false }, { chain := "polS", staged := true }] }
+def jG2 : Group := { chain := "g2", pols := [{ chain := "polB", staged := false }, { chain := "polS", staged := true }, { chain := "polC", staged := false }] }
+def jTiers : List Tier := [{ name := "tier0", defaultPass := false, groups := [jG1, jG2] }]
+def jChains : List Chain :=
+  [ { name := "ep", rules := (endpointChain {} {} "ep" jTiers ["prof"]).rules },
+    policyGroupChain {} jG2,
+    { name := "polA", rules := (protoRulesToRules {} {} false jA "c").getD [] },
+    { name := "polB", rules := (protoRulesToRules {} {} false jB "c").getD [] },
+    { name := "polC", rules := (protoRulesToRules {} {} false jC "c").getD [] },
+    { name := "prof", rules := (protoRulesToRules {} { owner := 'R' } false jProf "c").getD [] } ]
+
+theorem jEnv_catchAll : EnvCatchAll jEnv := fun _ => ⟨rfl, rfl⟩
+
+theorem jPolRules_eq : jPolRules "polA" = jA ∧ jPolRules "polB" = jB ∧ jPolRules "polC" = jC ∧ jPolRules "prof" = jProf := by
+  decide +kernel
+
+theorem jRuleExact (a p : String) : RuleExact {} jEnv wUdp { action := a, protocol := some (.name p) } := by
+  apply ruleExact_of_le2 {} jEnv wUdp _ (by constructor <;> decide) jEnv_catchAll (Or.inr (by intro t c h; cases h))
+  intro rc h
+  have : rc = { action := a, protocol := some (.name p) } := by
+    simp [filterRuleToIPVersion, filterNets, wUdp] at h; exact h.symm
+  subst this; simp [numPositive, splitPortList]
+
+/-- every hypothesis of `endpoint_chain_verdict_partial` holds for the layout above, so its
+conclusion does; the reference verdict there is `allow` (`joint_instance_verdict`). -/
+theorem joint_instance :
+    VShape {} (endpointVerdict (policyTiers jEnv wUdp jPolRules jTiers true)
+      (["prof"].map fun p => policyOutcome jEnv wUdp.v6 wUdp (jPolRules p)))
+      (evalChain jEnv jChains wUdp 4 "ep" 0) := by
+  have h := endpoint_chain_verdict_partial {} (by constructor <;> decide) (by constructor <;> decide) (by constructor <;> decide) {}
+    jEnv wUdp jChains "ep" jTiers ["prof"] jPolRules 0 0 rfl (fun h => absurd rfl h) (by decide) (by decide) (by decide)
+    (by decide +kernel) ?hgrp ?hpol ?hprof ?hn1 ?hn2
+  · exact h
+  case hgrp =>
+    intro t ht g hg hi
+    simp only [jTiers, List.mem_singleton] at ht; subst ht
+    simp only [List.mem_cons, List.not_mem_nil, or_false] at hg
+    rcases hg with rfl | rfl
+    · exact absurd hi (by decide)
+    · decide +kernel
+  case hpol =>
+    intro t ht g hg p hp hs
+    simp only [jTiers, List.mem_singleton] at ht; subst ht
+    simp only [List.mem_cons, List.not_mem_nil, or_false] at hg
+    rcases hg with rfl | rfl <;> simp only [jG1, jG2, List.mem_cons, List.not_mem_nil, or_false] at hp <;>
+      rcases hp with rfl | rfl | rfl <;> first | exact absurd hs (by decide) | skip
+    · refine ⟨{}, "c", (protoRulesToRules {} {} false jA "c").getD [], by decide +kernel, by decide +kernel, ?_, ?_⟩ <;>
+        (simp only [jPolRules_eq.1, jA, List.mem_singleton]; intro r hr; subst hr)
+      · exact jRuleExact _ _
+      · decide
+    · refine ⟨{}, "c", (protoRulesToRules {} {} false jB "c").getD [], by decide +kernel, by decide +kernel, ?_, ?_⟩ <;>
+        (simp only [jPolRules_eq.2.1, jB, List.mem_singleton]; intro r hr; subst hr)
+      · exact jRuleExact _ _
+      · decide
+    · refine ⟨{}, "c", (protoRulesToRules {} {} false jC "c").getD [], by decide +kernel, by decide +kernel, ?_, ?_⟩ <;>
+        (simp only [jPolRules_eq.2.2.1, jC, List.mem_singleton]; intro r hr; subst hr)
+      · exact jRuleExact _ _
+      · decide
+  case hprof =>
+    intro p hp
+    simp only [List.mem_singleton] at hp; subst hp
+    refine ⟨{ owner := 'R' }, "c", (protoRulesToRules {} { owner := 'R' } false jProf "c").getD [], by decide +kernel, by decide +kernel, ?_, ?_⟩ <;>
+      (simp only [jPolRules_eq.2.2.2, jProf, List.mem_singleton]; intro r hr; subst hr)
+    · exact jRuleExact _ _
+    · exact ⟨.allow, by decide, by decide⟩
+  case hn1 =>
+    intro t ht g hg hi t' ht' g' hg' hi' _
+    simp only [jTiers, List.mem_singleton] at ht ht'; subst ht; subst ht'
+    simp only [List.mem_cons, List.not_mem_nil, or_false] at hg hg'
+    rcases hg with rfl | rfl <;> rcases hg' with rfl | rfl <;>
+      first | rfl | exact absurd hi (by decide) | exact absurd hi' (by decide)
+  case hn2 =>
+    intro t ht g hg hi
+    simp only [jTiers, List.mem_singleton] at ht; subst ht
+    simp only [List.mem_cons, List.not_mem_nil, or_false] at hg
+    rcases hg with rfl | rfl
+    · exact absurd hi (by decide)
+    · constructor
+      · intro t' ht' g' hg' hi' p hp
+        simp only [jTiers, List.mem_singleton] at ht'; subst ht'
+        simp only [List.mem_cons, List.not_mem_nil, or_false] at hg'
+        rcases hg' with rfl | rfl
+        · have : p = { chain := "polA", staged := false } := by
+            simpa [jG1, Group.nonStaged] using hp
+          subst this; decide
+        · exact absurd hi' (by decide)
+      · intro p hp
+        simp only [List.mem_singleton] at hp; subst hp; decide
+
+
+/-- … and the instance is not degenerate: `polC` passes the packet to the profile, which allows it;
+the rendered chains return with the accept bit (0x80) set. -/
+theorem joint_instance_verdict :
+    endpointVerdict (policyTiers jEnv wUdp jPolRules jTiers true)
+      (["prof"].map fun p => policyOutcome jEnv wUdp.v6 wUdp (jPolRules p)) = .allow ∧
+    evalChain jEnv jChains wUdp 4 "ep" 0 = .returned 0x180#32 := by
+  constructor <;> decide +kernel
+
+/-! non-vacuity of the single hypotheses -/
 example : MarksOK {} := by constructor <;> decide
 example : VBits {} := by constructor <;> decide
 example : VD {} := by constructor <;> decide
